@@ -239,6 +239,10 @@ fn value_ok(a: &ArgSpec, v: &[u8]) -> bool {
         Vp::I64 => s.ok().and_then(|x| x.parse::<i64>().ok()).is_some(),
         Vp::Bool => matches!(s, Ok("true") | Ok("false")),
         Vp::Boolish | Vp::Falsey => s.is_ok(),
+        Vp::Enum => match s {
+            Ok(x) => ["fast", "quick", "slow", "lazy"].iter().any(|n| if a.ignore_case { n.eq_ignore_ascii_case(x) } else { *n == x }),
+            Err(_) => false,
+        },
         Vp::Pv(pvs) => match s {
             Ok(x) => pvs.iter().any(|p| {
                 let m = |n: &str| if a.ignore_case { n.eq_ignore_ascii_case(x) } else { n == x };
